@@ -35,6 +35,7 @@ BACKOFFS = ["0.1s", "0.25s", "0.5s", "1s", "1.5s", "2s", "0.125s", "0.3s", "0.75
 MAXES = ["1s", "2s", "5s", "10s", "60s", "0.5s", "32s", "2.5s", "0.4s", "7.25s"]
 TIMEOUTS = ["5s", "7.5s", "30s", "60s", "0.5s", "2.25s", "600s", "12.345s", "1s", "3s", "10s", "20.5s", "0.75s"]
 MULTS = [1.3, 2, 1.5, 1.25, 1, 3, 1.1, 2.5, 4, 1.75]
+GRPC_WIRE_TIMEOUT_CAP = 9.0e7     # the `grpc-timeout` header has 8 digits: gRPC itself caps what the server sees at 27000 hours
 TOL = 0.25            # seconds: loopback latency allowance when comparing a deadline seen by the server
 MARGIN = Fraction(1, 10)   # generated experiments stay this far away from every threshold of the loop
 
@@ -735,7 +736,7 @@ def check_calls(ctx, spec, s, asy, jitter, kept, sess):
                 # the server sees the deadline through grpc's coarse `grpc-timeout` encoding (rounded up); the client-side value is exact
                 if tr is None or ct is None:
                     ctx.fail(key_prefix + "call-deadline", f"{tag}: attempt {i} carries no deadline (client {ct}, server {tr}), timeout is {T}", payload)
-                elif not (0 < tr <= float(T) * 1.05 + 1.1) or not (0 < ct <= float(T) + 1e-6) or (i == 0 and (abs(ct - float(T)) > 0.05 or tr < float(T) - TOL)):
+                elif not (0 < tr <= float(T) * 1.05 + 1.1) or not (0 < ct <= float(T) + 1e-6) or (i == 0 and (abs(ct - float(T)) > 0.05 or tr < min(float(T), GRPC_WIRE_TIMEOUT_CAP) - TOL)):
                     ctx.fail(key_prefix + "call-deadline", f"{tag}: attempt {i} deadline client {ct} / server {tr:.3f} s, timeout is {T}", payload)
         # ---------------- correspondence with the model
         ctx.traces += 1
@@ -845,7 +846,7 @@ def run(ctx):
     # exhaustive status-code table on the wire
     spec = all_codes_spec()
     run_api(ctx, r, spec, "all-codes", plans=all_codes_plans(spec))
-    for a in range(ctx.n(14, 150)):
+    for a in range(ctx.n(14, 220)):
         run_api(ctx, r, gen_spec(r, a, thorough=not ctx.quick), f"api{a}")
 
 
